@@ -67,6 +67,7 @@ pub struct History<'h> {
     pub frontier: usize,
     pub boundaries: Vec<usize>,
     pub last_peek_ends: Vec<usize>,
+    pub last_setoff: usize,
     pub dead: bool,
 }
 
@@ -82,6 +83,7 @@ impl<'h> History<'h> {
             frontier: 0,
             boundaries,
             last_peek_ends: vec![],
+            last_setoff: 0,
             dead: false,
         }
     }
@@ -199,7 +201,19 @@ impl<'h> History<'h> {
         } else if take!(p.setoff_back) {
             let cands: Vec<usize> =
                 self.boundaries.iter().cloned().filter(|b| *b <= self.frontier).collect();
-            let o = *r.pick(&cands);
+            // bias: the frontier itself, the last reset offset, offsets directly after a line feed
+            let after_lf: Vec<usize> = cands
+                .iter()
+                .cloned()
+                .filter(|b| *b > 0 && self.input.as_bytes()[*b - 1] == b'\n')
+                .collect();
+            let o = match r.below(10) {
+                0..=2 => self.frontier,
+                3 => self.last_setoff.min(self.frontier),
+                4..=5 if !after_lf.is_empty() => *r.pick(&after_lf),
+                _ => *r.pick(&cands),
+            };
+            self.last_setoff = o;
             self.last_peek_ends.clear();
             let _ = writeln!(out, "setoff {} {}", k, o);
             if self.guarded(|it| it.set_offset(o)).is_none() {
